@@ -130,7 +130,7 @@ def backend(variant='asan'):
 
 def child_env(variant='asan', logbase=None, extra=None, hashseed='0'):
     """Environment for a python subprocess that uses the given backend variant."""
-    d = backend(variant)
+    d = backend('plain' if variant == 'memcheck' else variant)
     env = {k: v for k, v in os.environ.items()
            if k not in ('PYTHONPATH', 'LD_PRELOAD', 'PYTHONHOME')}
     env['PYTHONPATH'] = os.pathsep.join([d, os.path.join(REPO, 'src'), VERIF])
@@ -151,6 +151,10 @@ def child_env(variant='asan', logbase=None, extra=None, hashseed='0'):
         env['UBSAN_OPTIONS'] = uopts
         env['ASAN_SYMBOLIZER_PATH'] = shutil.which('llvm-symbolizer') or \
             '/usr/lib/llvm-14/bin/llvm-symbolizer'
+    elif variant == 'memcheck':
+        env['PYTHONMALLOC'] = 'malloc'
+        if logbase:
+            env['VERIF_MEMCHECK_LOG'] = logbase
     elif variant == 'tsan':
         # the launcher is not the venv's interpreter: add its site-packages
         import glob as _g
@@ -165,9 +169,12 @@ def child_env(variant='asan', logbase=None, extra=None, hashseed='0'):
     return env
 
 
-def python_cmd(variant='asan'):
+def python_cmd(variant='asan', logbase=None):
     if variant == 'tsan':
         return [os.path.join(backend('tsan'), 'pytsan')]
+    if variant == 'memcheck':
+        return ['valgrind', '-q', '--tool=memcheck', '--error-exitcode=0', '--num-callers=12',
+                '--log-file=%s.%%p' % (logbase or '/dev/null'), PY]
     return [PY]
 
 
